@@ -154,13 +154,63 @@ enum Sib {
     PkgDeep(&'static str),
     /// sub-element of a mixed-content element (L-4): TT / E / SUB ...
     Inline(&'static str),
+    /// ECUC-TEXTUAL-PARAM-VALUE (no name) with equal DEFINITION-REF and VALUE and ANNOTATIONS holding one ANNOTATION per
+    /// origin, STORED IN THIS ORDER: siblings tie on every key, Element::cmp falls through to their (reorderable) content
+    Annot(Vec<&'static str>),
+    /// the same two levels further down: one ANNOTATION whose ANNOTATION-TEXT holds one P (with an L-1 text) per entry
+    AnnotP(Vec<&'static str>),
     /// APPLICATION-ENTRY (LIN schedule table entry) with INTRODUCTION, DELAY, POSITION-IN-TABLE: DELAY has one position in
     /// version 4.0.1 and another one, after INTRODUCTION, in all later versions
     AppEntry(&'static str),
 }
 
+/// identifies the sibling up to the stored order of its reorderable content (the multiset a group is made of)
 fn sib_id(s: &Sib) -> String {
+    let canon = match s {
+        Sib::Annot(v) => {
+            let mut v = v.clone();
+            v.sort();
+            Sib::Annot(v)
+        }
+        Sib::AnnotP(v) => {
+            let mut v = v.clone();
+            v.sort();
+            Sib::AnnotP(v)
+        }
+        other => other.clone(),
+    };
+    sib_full(&canon)
+}
+fn sib_full(s: &Sib) -> String {
     format!("{:?}", s).replace(' ', "").replace('"', "")
+}
+/// every stored order of the sibling's own reorderable content
+fn inner_orders(s: &Sib) -> Vec<Sib> {
+    match s {
+        Sib::Annot(v) => permutations(v).into_iter().map(Sib::Annot).collect(),
+        Sib::AnnotP(v) => permutations(v).into_iter().map(Sib::AnnotP).collect(),
+        other => vec![other.clone()],
+    }
+}
+/// all orders of the siblings x all stored orders inside each sibling
+fn expand(set: &[Sib]) -> Vec<Vec<Sib>> {
+    let mut res: Vec<Vec<Sib>> = vec![];
+    for perm in permutations(set) {
+        let mut acc: Vec<Vec<Sib>> = vec![vec![]];
+        for s in &perm {
+            let mut next = vec![];
+            for prefix in &acc {
+                for o in inner_orders(s) {
+                    let mut p = prefix.clone();
+                    p.push(o);
+                    next.push(p);
+                }
+            }
+            acc = next;
+        }
+        res.extend(acc);
+    }
+    res
 }
 
 fn build_sib(b: &mut B, c: usize, k: usize, s: &Sib) {
@@ -250,6 +300,34 @@ fn build_sib(b: &mut B, c: usize, k: usize, s: &Sib) {
             b.named(iel, "UNIT", "k2");
             b.named(iel, "UNIT", "k1");
         }
+        Sib::Annot(origins) => {
+            let e = b.sub(c, "ECUC-TEXTUAL-PARAM-VALUE");
+            let dr = b.sub(e, "DEFINITION-REF");
+            b.text(dr, "/d/p");
+            let v = b.sub(e, "VALUE");
+            b.text(v, "text");
+            let an = b.sub(e, "ANNOTATIONS");
+            for o in origins {
+                let a = b.sub(an, "ANNOTATION");
+                let ao = b.sub(a, "ANNOTATION-ORIGIN");
+                b.text(ao, o);
+            }
+        }
+        Sib::AnnotP(texts) => {
+            let e = b.sub(c, "ECUC-TEXTUAL-PARAM-VALUE");
+            let dr = b.sub(e, "DEFINITION-REF");
+            b.text(dr, "/d/p");
+            let an = b.sub(e, "ANNOTATIONS");
+            let a = b.sub(an, "ANNOTATION");
+            let ao = b.sub(a, "ANNOTATION-ORIGIN");
+            b.text(ao, "o");
+            let at = b.sub(a, "ANNOTATION-TEXT");
+            for t in texts {
+                let p = b.sub(at, "P");
+                let l = b.sub(p, "L-1");
+                b.op(Op::InsertCItem(l, t.as_bytes().to_vec(), 0));
+            }
+        }
         Sib::AppEntry(position) => {
             let e = b.sub(c, "APPLICATION-ENTRY");
             b.sub(e, "INTRODUCTION");
@@ -285,7 +363,7 @@ fn build_container(b: &mut B, fam: &str) -> usize {
             let o = b.named(ops, "CLIENT-SERVER-OPERATION", "op");
             b.sub(o, "ARGUMENTS")
         }
-        "index" | "param" | "paramidx" => {
+        "index" | "param" | "paramidx" | "nested" => {
             let el = b.elements();
             let m = b.named(el, "ECUC-MODULE-CONFIGURATION-VALUES", "cfg");
             let cs = b.sub(m, "CONTAINERS");
@@ -366,6 +444,18 @@ fn families(tier: &str) -> Vec<(&'static str, Vec<Vec<Sib>>)> {
         vec![PkgDeep("w")],
         vec![PkgDeep("w2"), PkgDeep("w10")],
     ]));
+    // siblings that tie on every key and whose own content is stored unsorted: the children must be sorted BEFORE the
+    // siblings are compared (every order of the siblings x every stored order of their children, two and four levels down)
+    v.push(("nested", vec![
+        vec![Annot(vec!["b", "a"]), Annot(vec!["a", "c"])],
+        vec![Annot(vec!["a", "b"]), Annot(vec!["a", "c"]), Annot(vec!["b", "c"])],
+        vec![Annot(vec!["c", "b", "a"]), Annot(vec!["a", "c"])],
+        vec![Annot(vec!["a", "b"]), Annot(vec!["a", "b"])],
+        vec![Annot(vec!["a2", "a10"]), Annot(vec!["a10", "a1b"])],
+        vec![AnnotP(vec!["b", "a"]), AnnotP(vec!["a", "c"])],
+        vec![AnnotP(vec!["c", "a"]), AnnotP(vec!["a", "b"]), AnnotP(vec!["a"])],
+        vec![Annot(vec!["b", "a"]), AnnotP(vec!["b", "a"]), Annot(vec!["a", "a"])],
+    ]));
     v.push(("mixed", vec![vec![Inline("TT"), Inline("E"), Inline("SUB")]]));
     v.push(("verorder", vec![vec![AppEntry("2"), AppEntry("1")]]));
     if thorough {
@@ -429,9 +519,9 @@ pub fn gen_main(args: &[String]) {
             ids.sort();
             let setid = ids.join("+");
             let mut seen: HashSet<String> = HashSet::new();
-            for perm in permutations(&set) {
+            for perm in expand(&set) {
                 // equal siblings make equal permutations: build each distinct sequence once
-                let key: Vec<String> = perm.iter().map(sib_id).collect();
+                let key: Vec<String> = perm.iter().map(sib_full).collect();
                 if !seen.insert(key.join("|")) {
                     continue;
                 }
@@ -548,7 +638,7 @@ fn view(ex: &Exec, mi: usize, roots: &[String]) -> ModelView {
     ModelView { loads, idents, refs, broken: format!("{:?}", br), file_lines, texts }
 }
 
-fn check_sort(ex: &mut Exec, op: &Op, k: usize, step: usize, probes: &[String], fails: &mut Vec<String>, checks: &mut u64) -> String {
+fn check_sort(ex: &mut Exec, op: &Op, k: usize, step: usize, probes: &[String], fails: &mut Vec<String>, checks: &mut u64, first_text: &mut Option<String>) -> String {
     let (root, mi): (Element, Option<usize>) = match op {
         Op::Sort(h) => {
             let e = ex.handles[*h].clone();
@@ -624,6 +714,10 @@ fn check_sort(ex: &mut Exec, op: &Op, k: usize, step: usize, probes: &[String], 
         if va.file_lines != vb.file_lines {
             fail("content", "the serialized lines are not the same multiset".into());
         }
+        // what ONE sort made of this order of the siblings (compared across the scripts of a group)
+        if first_text.is_none() {
+            *first_text = Some(va.texts.iter().map(|t| strip_comments(t)).collect::<Vec<_>>().join("\n====\n"));
+        }
         // idempotence: sorting again changes nothing
         let _ = ex.apply(op);
         let v2 = view(ex, m, probes);
@@ -660,10 +754,11 @@ pub fn oracle_main(args: &[String]) {
             let probes: Vec<String> = probes.into_iter().filter(|p| !p.starts_with('\u{1}')).collect();
             let mut ex = Exec::new(&names);
             let mut dead = false;
+            let mut first_text: Option<String> = None;
             for (step, op) in ops.iter().enumerate() {
                 let r = match op {
                     Op::Sort(_) | Op::SortModel(_) => {
-                        let r = guard(std::panic::AssertUnwindSafe(|| check_sort(&mut ex, op, k, step, &probes, &mut fails, &mut checks)));
+                        let r = guard(std::panic::AssertUnwindSafe(|| check_sort(&mut ex, op, k, step, &probes, &mut fails, &mut checks, &mut first_text)));
                         match r {
                             Ok(r) => r,
                             Err(_) => {
@@ -685,8 +780,13 @@ pub fn oracle_main(args: &[String]) {
             if let Some(tag) = tags.get(&k) {
                 // ordered containers and mixed content keep the order they were given: no canonical form to compare
                 if !ex.models.is_empty() && !tag.starts_with("fam=ordered ") && !tag.starts_with("fam=mixed ") {
+                    // after the FIRST sort of the script (the later ones would hide a dependence on the previous order) ...
+                    if let Some(t) = first_text {
+                        groups.entry(format!("{} after=first-sort", tag)).or_default().push((t, k));
+                    }
+                    // ... and at the end
                     let t: Vec<String> = ex.models[0].files().map(|f| strip_comments(&f.serialize().unwrap_or_default())).collect();
-                    groups.entry(tag.clone()).or_default().push((t.join("\n====\n"), k));
+                    groups.entry(format!("{} after=all", tag)).or_default().push((t.join("\n====\n"), k));
                 }
             }
         }
